@@ -41,6 +41,8 @@ uint8_t sbox(uint8_t x)
   return b ^ rotl8(b, 1) ^ rotl8(b, 2) ^ rotl8(b, 3) ^ rotl8(b, 4) ^ 0x63;
 }
 static uint8_t SB[256], ISB[256];
+// products with the MixColumns / InvMixColumns coefficients, memoised from gf_mul (speed only)
+static uint8_t M2[256], M3[256], M9[256], M11[256], M13[256], M14[256];
 static bool tables_ready = false;
 static void init_tables()
 {
@@ -50,6 +52,15 @@ static void init_tables()
     SB[i] = sbox((uint8_t)i);
   for (int i = 0; i < 256; i++)
     ISB[SB[i]] = (uint8_t)i;
+  for (int i = 0; i < 256; i++)
+  {
+    M2[i] = gf_mul((uint8_t)i, 2);
+    M3[i] = gf_mul((uint8_t)i, 3);
+    M9[i] = gf_mul((uint8_t)i, 9);
+    M11[i] = gf_mul((uint8_t)i, 11);
+    M13[i] = gf_mul((uint8_t)i, 13);
+    M14[i] = gf_mul((uint8_t)i, 14);
+  }
   tables_ready = true;
 }
 uint8_t inv_sbox(uint8_t x)
@@ -124,10 +135,10 @@ static void mix_columns(uint8_t s[16])
   for (int c = 0; c < 4; c++)
   {
     uint8_t *a = s + 4 * c;
-    uint8_t b0 = gf_mul(a[0], 2) ^ gf_mul(a[1], 3) ^ a[2] ^ a[3];
-    uint8_t b1 = a[0] ^ gf_mul(a[1], 2) ^ gf_mul(a[2], 3) ^ a[3];
-    uint8_t b2 = a[0] ^ a[1] ^ gf_mul(a[2], 2) ^ gf_mul(a[3], 3);
-    uint8_t b3 = gf_mul(a[0], 3) ^ a[1] ^ a[2] ^ gf_mul(a[3], 2);
+    uint8_t b0 = M2[a[0]] ^ M3[a[1]] ^ a[2] ^ a[3];
+    uint8_t b1 = a[0] ^ M2[a[1]] ^ M3[a[2]] ^ a[3];
+    uint8_t b2 = a[0] ^ a[1] ^ M2[a[2]] ^ M3[a[3]];
+    uint8_t b3 = M3[a[0]] ^ a[1] ^ a[2] ^ M2[a[3]];
     a[0] = b0;
     a[1] = b1;
     a[2] = b2;
@@ -139,10 +150,10 @@ static void inv_mix_columns(uint8_t s[16])
   for (int c = 0; c < 4; c++)
   {
     uint8_t *a = s + 4 * c;
-    uint8_t b0 = gf_mul(a[0], 14) ^ gf_mul(a[1], 11) ^ gf_mul(a[2], 13) ^ gf_mul(a[3], 9);
-    uint8_t b1 = gf_mul(a[0], 9) ^ gf_mul(a[1], 14) ^ gf_mul(a[2], 11) ^ gf_mul(a[3], 13);
-    uint8_t b2 = gf_mul(a[0], 13) ^ gf_mul(a[1], 9) ^ gf_mul(a[2], 14) ^ gf_mul(a[3], 11);
-    uint8_t b3 = gf_mul(a[0], 11) ^ gf_mul(a[1], 13) ^ gf_mul(a[2], 9) ^ gf_mul(a[3], 14);
+    uint8_t b0 = M14[a[0]] ^ M11[a[1]] ^ M13[a[2]] ^ M9[a[3]];
+    uint8_t b1 = M9[a[0]] ^ M14[a[1]] ^ M11[a[2]] ^ M13[a[3]];
+    uint8_t b2 = M13[a[0]] ^ M9[a[1]] ^ M14[a[2]] ^ M11[a[3]];
+    uint8_t b3 = M11[a[0]] ^ M13[a[1]] ^ M9[a[2]] ^ M14[a[3]];
     a[0] = b0;
     a[1] = b1;
     a[2] = b2;
